@@ -52,9 +52,12 @@ class H5Group:
 
     def create_link(self, target, name):
         self._create_h5obj()
+        # resolve the target first: an invalid target must not cost the
+        # existing link
+        targetgroup = target._h5group.group
         if name in self.group:
             del self.group[name]
-        self.group[name] = target._h5group.group
+        self.group[name] = targetgroup
 
     @classmethod
     def create_from_h5obj(cls, h5obj):
